@@ -26,7 +26,7 @@ Next == PickBlock \/ PickTrace
 InCatalogue(r) ==
     /\ r.call \in FrCallNames
     /\ LET c == FrCallNamed(r.call) IN
-         /\ r.opt \in c.opts /\ r.nd \in c.ndims
+         /\ r.opt \in c.opts \cup c.axopts /\ r.nd \in c.ndims
          /\ Len(r.lay) = Len(c.params) /\ Len(r.pre) = Len(c.params) /\ Len(r.post) = Len(c.params) /\ Len(r.val) = Len(c.params)
          /\ Len(r.size) = Len(c.params)
          /\ \A i \in DOMAIN c.params : r.size[i] \in FrSizes /\ (r.size[i] = "large" => r.nd = 1 /\ r.opt \in c.big)
